@@ -12,7 +12,7 @@
      copt            = (value? tag? fn?)   fn = (id? (ufarg..))   ufarg = (value? tag?)
      symbol          = (tag? ident?)
      fnenv           = ((ident impl)..)    impl = 0 ($eq) | 1 ($eq_type) | (2 ((value (arg?..))..)) table *)
-From NDN Require Import Base.Prelude Base.Sexp Base.Text Model.LvsAst Model.LvsChecker Model.LvsCompiler Spec.LvsSem.
+From NDN Require Import Base.Prelude Base.Sexp Base.Text Model.LvsAst Model.LvsChecker Model.LvsCompiler Spec.LvsSem Spec.LvsChains.
 Local Open Scope N_scope.
 
 Definition as_name (s : sexp) : option (list bytes) := as_list_of as_bytes s.
@@ -158,6 +158,7 @@ Definition run (req : sexp) : sexp :=
   | SList [SNum 7; mm] => or_bad (odo x <- as_model mm ;; Some (s_bool (saneb x)))
   | SList [SNum 8; a] => or_bad (odo x <- as_ast a ;; Some (SList [s_bool (static_ok x); s_bool (no_rule_sign_cycle x)]))
   | SList [SNum 10; a] => or_bad (odo x <- as_ast a ;; Some (s_res s_model (compile_pool x)))
+  | SList [SNum 11; a] => or_bad (odo x <- as_ast a ;; Some (s_res s_bool (schema_chains_ok x)))
   | SList [SNum 9; mm] => or_bad (odo x <- as_model mm ;; Some (s_bool (sign_acyclicb x)))
   (* batch forms: one answer per name / pair *)
   | SList [SNum 13; mm; fe; fuel; nms] =>
